@@ -175,7 +175,7 @@ def check_horosphere(run, d, model, scene):
                 w, hh, ang = np.asarray(c.get_widths(), float), np.asarray(c.get_heights(), float), np.asarray(c.get_angles(), float)
                 r = dc.rat(h["r"])
                 ctr = dc.rat2(h["c"])
-                tol = 1e-9 * max(1.0, r, float(np.abs(ctr).max()))
+                tol = 1e-6 * max(1.0, r, float(np.abs(ctr).max()))      # the centre is an ideal point: sqrt at the boundary
                 if off.shape != (1, 2) or w.shape != (1,) or hh.shape != (1,):
                     bad = "expected one circle, found offsets %r widths %r" % (off.shape, w.shape)
                 elif np.abs(off[0] - ctr).max() > tol or abs(w[0] - 2 * r) > 2 * tol or abs(hh[0] - 2 * r) > 2 * tol:
